@@ -37,4 +37,20 @@ def isCb : Obs → Bool
   | .fromApp .. | .fromAdmin .. | .onLogon => true
   | _ => false
 
+/-- C06 gate monitor over typed observations, relative to a pool `P` of inbound messages (those that were ever handed to
+    the session): every callback / logon notification is about some message of the pool that passes the message-level
+    gate.  FromAdmin for a Logon happens before the session-level checks (only validation is guaranteed). -/
+def gateObs (cfg : Cfg) (P : InMsg → Prop) : Obs → Prop
+  | .fromApp seq _ => ∃ m, P m ∧ seqText m = seq ∧ isAdminKind (kindOf m) = false ∧ GateMsg cfg m
+  | .fromAdmin k seq => ∃ m, P m ∧ seqText m = seq ∧ kindOf m = k ∧ NoEmpty m ∧ (k ≠ "A" → GateMsg cfg m)
+  | .onLogon => ∃ m, P m ∧ kindOf m = "A" ∧ GateMsg cfg m ∧ callbackVerdict m = none
+  | _ => True
+
+/-- the inbound messages of a history -/
+def msgsOf : List Ev → List InMsg
+  | [] => []
+  | .incomingMsg (some m) :: es => m :: msgsOf es
+  | .arrive m :: es => m :: msgsOf es
+  | _ :: es => msgsOf es
+
 end Qfx.Sess
